@@ -2,7 +2,7 @@
 //! Per contract: every administrative entry point x every candidate authoriser, over all
 //! histories of role transfers (incl. to self and back), explored to fixpoint.
 
-use axmc::aux::Principal;
+use axmc::aux::{Principal, Probe};
 use axmc::explore::*;
 use axmc::gw::*;
 use axmc::its::{metadata_scval, token_scval};
@@ -77,6 +77,7 @@ struct Ctx {
     p: Vec<Address>,
     keys: Keys,
     asset: Address,
+    probe: Address,
 }
 
 struct C06;
@@ -199,8 +200,9 @@ impl Scenario for C06 {
         let keys = Keys::new(1);
         let target = self.register(&w, c, &p, &keys, &asset);
         let twin = self.register(&w, c, &p, &keys, &asset);
+        let probe = env.register(Probe, ());
         (
-            Ctx { w, kind: c, target, twin, p, keys, asset },
+            Ctx { w, kind: c, target, twin, p, keys, asset, probe },
             Model { advances: 0, owner: 0, operator: 1, window: false, flag: false, budget: 3, epoch: 1 },
         )
     }
@@ -317,6 +319,18 @@ impl Scenario for C06 {
             2 => {
                 let q = w.query(&ctx.target, "is_operator", &[p[2].to_val()]);
                 out.expect(q == Some(ScVal::Bool(m.flag)), "probe.is_operator", || format!("{:?} vs {}", q, m.flag));
+                // the set change must have taken effect: the account can act as operator iff it is in the set
+                let env = &w.env;
+                let args: soroban_sdk::Vec<Val> = soroban_sdk::Vec::from_slice(env, &[w.v(2i128), w.v(3i128)]);
+                let snap = w.snap();
+                let c = w.call(
+                    &ctx.target,
+                    "execute",
+                    &[p[2].to_val(), ctx.probe.to_val(), soroban_sdk::Symbol::new(env, "add").to_val(), args.to_val()],
+                    Auth::By(&[p[2].clone()]),
+                );
+                w.restore(&snap);
+                out.expect(c.ok == m.flag, "probe.operator-effect", || format!("execute by the account: ok={} ({}), member {}", c.ok, c.err, m.flag));
             }
             3 => {
                 let q = w.query(&ctx.target, "is_trusted_chain", &[to_val(&w.env, &sstr("ethereum"))]);
